@@ -468,14 +468,52 @@ def r_argname(ctx, resolver, funcs, rule: str = 'R-ARGNAME', only_params: typing
     return n
 
 
+FORWARD_OK = {  # (caller, callee, parameter) -> reason the caller deliberately does not forward its own value
+    ('forml.provider.registry.filesystem.posix:Registry.close', 'forml.provider.registry.filesystem.posix:Path.state', 'generation'):
+        'the source of the rename is the *staged* state path, which has no generation yet',
+    ('forml.runtime._service.prediction:Executor.__init__', 'forml.runtime._service.prediction:Pool.__init__', 'name'):
+        'the thread name of the executor is not the process name of its pool',
+}
+
+
+def r_forward(ctx, resolver, funcs, rule: str = 'R-FORWARD') -> int:
+    """Delegation keeps the caller's values: a function that hands at least one of its own parameters on to a resolved callee
+    under the same name, and has another parameter the callee also takes under that name, passes that one on too - an omitted
+    argument silently falls back to the callee's default (the caller's explicit value is lost)."""
+    n = 0
+    for fn in funcs:
+        mine = set(fn.param_names) - {'self', 'cls', 'mcs'}
+        if len(mine) < 2:
+            continue
+        for call in core.calls_in(fn.node, deep=False):
+            if any(isinstance(a, ast.Starred) for a in call.args) or any(k.arg is None for k in call.keywords):
+                continue
+            callee = resolver.resolve(fn, call)
+            if callee is None:
+                continue
+            common = mine & set(callee.params)
+            if len(common) < 2:
+                continue
+            bound = resolver.bind(callee, call)
+            fwd = {q for q, a in bound.items() if q in common and isinstance(a, ast.Name) and a.id == q}
+            if not fwd:
+                continue
+            n += 1
+            missing = sorted(q for q in common - set(bound) if (fn.ref, callee.ref, q) not in FORWARD_OK)
+            ctx.check(not missing, rule, fn, f'delegation to {callee.ref} forwards {sorted(fwd)}' + (f' but not {missing}, which the callee also takes: its default replaces the caller\'s value' if missing else ' and every other shared parameter'), call, callee=callee.ref)
+    return n
+
+
 def argname_scope(ctx, prefixes: tuple[str, ...], floor: int = 3) -> None:
-    """Run R-ARGNAME over every function of the modules with the given prefixes (the modules a property anchors)."""
+    """Run R-ARGNAME and R-FORWARD over every function of the modules with the given prefixes (the modules a property
+    anchors)."""
     from .. import calls as callsmod
 
     resolver = callsmod.Resolver(ctx.prog)
     mods = [m for m in ctx.prog.modules if m.startswith(prefixes)]
     n = r_argname(ctx, resolver, ctx.prog.functions(mods))
     ctx.floor('R-ARGNAME', n, floor)
+    r_forward(ctx, resolver, ctx.prog.functions(mods))
 
 
 # --------------------------------------------------------------------------------------------------
@@ -603,3 +641,117 @@ def stmt_under(ctx, rule: str, fn: core.FuncInfo, text: str, want: list[tuple[st
     ok = len(hits) == 1 and got[0] == sorted(want)
     ctx.check(ok, rule, fn, f'{msg} (`{text}` under {sorted(want)}; found {len(hits)} time(s) under {got})', hits[0] if hits else fn.node, key=key)
     return ok
+
+
+MUTABLE_CTORS = {'dict', 'list', 'set', 'collections.defaultdict', 'collections.OrderedDict', 'collections.deque', 'collections.Counter', 'weakref.WeakValueDictionary', 'weakref.WeakKeyDictionary'}
+
+
+def r_perinstance(ctx, classes: typing.Iterable[core.ClassInfo], rule: str = 'R-PERINSTANCE', shared_ok: typing.Optional[dict[str, str]] = None) -> int:
+    """State that methods mutate *through self* is per instance: a container bound once in the class body (``x = {}``) is one
+    object shared by all instances - correlation tables, pending-request maps and counters kept there cross the instances.
+    ``shared_ok`` lists ``Class.attr`` -> reason for deliberately process-wide registries.  Returns #attributes examined."""
+    shared_ok = shared_ok or {}
+    n = 0
+    for ci in classes:
+        mutable_cls = {}
+        for name, val in ci.assigns.items():
+            if isinstance(val, (ast.Dict, ast.List, ast.Set, ast.DictComp, ast.ListComp, ast.SetComp)) or (isinstance(val, ast.Call) and (core.call_name(val) or '') in MUTABLE_CTORS):
+                mutable_cls[name] = val
+        written: dict[str, ast.AST] = {}
+        init_bound: set[str] = set()
+        for mname, mnode in ci.methods.items():
+            first = mnode.args.args[0].arg if mnode.args.args else None
+            if first is None or any((core.dotted(d) or '').split('.')[-1] in ('classmethod', 'staticmethod') for d in mnode.decorator_list):
+                continue
+            for x in core.walk_local(mnode):
+                if isinstance(x, (ast.Assign, ast.AnnAssign)):
+                    for t in (x.targets if isinstance(x, ast.Assign) else [x.target]):
+                        if isinstance(t, ast.Attribute) and isinstance(t.value, ast.Name) and t.value.id == first and mname == '__init__':
+                            init_bound.add(t.attr)
+            for site, attr in container_writes(mnode, set(mutable_cls) | {a for a in ci.assigns}):
+                # only writes through self count (Class.attr writes are explicit sharing)
+                txt = core.src(site)
+                if f'{first}.{attr}' in txt and not (isinstance(site, (ast.Assign, ast.AnnAssign)) and any(isinstance(t, ast.Attribute) and t.attr == attr for t in (site.targets if isinstance(site, ast.Assign) else [site.target]))):
+                    written.setdefault(attr, site)
+        for attr, val in mutable_cls.items():
+            n += 1
+            key = f'{ci.qual}.{attr}'
+            if attr in written and attr not in init_bound:
+                if key in shared_ok:
+                    ctx.ok(rule, ci.ref, f'{key} is deliberately shared by all instances: {shared_ok[key]}')
+                else:
+                    ctx.fail(rule, ci.ref, f'{key} is a mutable container bound once in the class body and mutated through self (`{core.src(written[attr])[:60]}`): every instance shares the one object', written[attr], key=f'{key}:shared')
+            else:
+                ctx.ok(rule, ci.ref, f'{key}: class-level container not mutated through self (or re-bound per instance in __init__)')
+    return n
+
+
+class _MiniClass:
+    """ClassInfo look-alike over a bare ``ast.ClassDef`` (for the embedded positive examples of zero-expected rules)."""
+
+    def __init__(self, node: ast.ClassDef):
+        self.node, self.qual, self.ref = node, node.name, f'<example>:{node.name}'
+        self.methods = {n.name: n for n in node.body if isinstance(n, (ast.FunctionDef, ast.AsyncFunctionDef))}
+        self.assigns = {}
+        for n in node.body:
+            if isinstance(n, ast.Assign) and isinstance(n.targets[0], ast.Name):
+                self.assigns[n.targets[0].id] = n.value
+            elif isinstance(n, ast.AnnAssign) and isinstance(n.target, ast.Name) and n.value is not None:
+                self.assigns[n.target.id] = n.value
+
+
+PERINSTANCE_EXAMPLE = '''
+class E:
+    _pending: dict = {}
+    _index: int = 0
+    NAMES = {}
+    def __init__(self):
+        self._own = {}
+    def apply(self, x):
+        self._index += 1
+        self._pending[self._index] = x
+        self._own[x] = 1
+class F:
+    _pending = {}
+    def __init__(self):
+        self._pending = {}
+    def apply(self, x):
+        self._pending[x] = 1
+'''
+
+
+def perinstance_selfcheck() -> None:
+    class Probe:
+        def __init__(self):
+            self.fails = []
+
+        def ok(self, *a, **k):
+            pass
+
+        def fail(self, rule, where, msg, *a, **k):
+            self.fails.append(k.get('key'))
+
+    tree = ast.parse(PERINSTANCE_EXAMPLE)
+    core.set_parents(tree) if hasattr(core, 'set_parents') else None
+    pr = Probe()
+    r_perinstance(pr, [_MiniClass(n) for n in tree.body if isinstance(n, ast.ClassDef)])
+    if pr.fails != ['E._pending:shared']:
+        raise core.AnalysisError(f'R-PERINSTANCE matcher self-check failed on the embedded example: {pr.fails}')
+
+
+def r_probe(ctx, funcs, rule: str = 'R-PROBE') -> int:
+    """Import-probe idiom: inside ``except ModuleNotFoundError as err`` the error is swallowed ("not found") only when the
+    *missing module is the probed name or one of its parents* - ``<probed>.startswith(err.name)``.  The reversed test
+    (``err.name.startswith(<probed>)``) lets the error escape when a parent package is missing (unknown reference -> raw
+    ModuleNotFoundError instead of the missing-provider / missing-component outcome) and swallows failures of imports made
+    *inside* the probed package.  Returns the number of probe tests seen."""
+    n = 0
+    for fn in funcs:
+        for h in [x for x in core.walk_local(fn.node) if isinstance(x, ast.ExceptHandler) and x.type is not None and 'ModuleNotFoundError' in core.src(x.type) and x.name]:
+            for c in [c for st in h.body for c in core.calls_in(st)]:
+                if isinstance(c.func, ast.Attribute) and c.func.attr == 'startswith' and len(c.args) == 1:
+                    recv, arg = core.src(c.func.value), core.src(c.args[0])
+                    if f'{h.name}.name' in (recv, arg):
+                        n += 1
+                        ctx.check(arg == f'{h.name}.name', rule, fn, f'the probe swallows the error when the missing module is a prefix of the probed name (`{core.src(c)}`)', c)
+    return n
